@@ -373,6 +373,20 @@ func (h *H) eval(cs Case) *rig.Failure {
 			}
 			continue
 		}
+		if old != nil && st.Op == "create" {
+			// POST of an object that exists: AlreadyExists, nothing changes
+			pre, _ := s.decode(st.Submitted)
+			var err2 error
+			rig.Recover(func() {
+				_, err2 = s.MainREST.(rest.Creater).Create(ctx, pre, rest.ValidateAllObjectFunc, &metav1.CreateOptions{})
+			})
+			back := s.Main.NewFunc()
+			if gerr := s.Mem.Get(ctx, key, "", back, false); err2 == nil || gerr != nil || deepGroups(back) != oldDeep {
+				return fail("diff", "c20.already-exists", fmt.Sprintf("step %d: create of an existing object: error=%q, stored object changed=%v", i, errClass(err2), gerr != nil || deepGroups(back) != oldDeep), nil)
+			}
+			h.obs["step:create:already-exists"]++
+			continue
+		}
 		if old == nil && st.Op != "create" {
 			// an update that names (by uid) an object that does not exist is refused by the store's precondition,
 			// it is not turned into a creation
@@ -444,6 +458,7 @@ func (h *H) eval(cs Case) *rig.Failure {
 			return fail("diff", "c20.bad-case", "submitted document does not decode: "+err.Error(), nil)
 		}
 		subDeep := deepGroups(obj)
+		st.MetaValid = st.MetaValid && metaAcceptable(old, obj)
 		if old != nil {
 			h.viewAgreement(old, obj)
 			if (subDeep.Spec != oldDeep.Spec && subDeep.SpecSem == oldDeep.SpecSem) || (subDeep.Annotations != oldDeep.Annotations && subDeep.AnnotationsSem == oldDeep.AnnotationsSem) {
@@ -476,9 +491,6 @@ func (h *H) eval(cs Case) *rig.Failure {
 		if err1 == nil {
 			out1Deep, out1API = deepGroups(obj), apiGroups(obj)
 			t.Out1 = &out1API
-		}
-		if st.Op == "create" && old != nil {
-			return fail("diff", "c20.bad-case", "create against an existing object", nil)
 		}
 		// ---- L2: the endpoint's rest.Storage
 		var out2 runtime.Object
@@ -574,6 +586,39 @@ func (h *H) eval(cs Case) *rig.Failure {
 		}
 	}
 	return nil
+}
+
+// metaAcceptable: the ObjectMeta rules the generator cannot always foresee because they depend on the state the
+// server is in by now (an object re-created under a new uid, a deletionTimestamp set by an earlier DELETE): uid and
+// the deletion fields are immutable, a terminating object accepts no new finalizers. Decided from the stored object
+// and the body — never from the outcome.
+func metaAcceptable(old, obj runtime.Object) bool {
+	if old == nil {
+		return true
+	}
+	oa, _ := meta.Accessor(old)
+	na, _ := meta.Accessor(obj)
+	if na.GetUID() != "" && na.GetUID() != oa.GetUID() {
+		return false
+	}
+	if oa.GetDeletionTimestamp() == nil && na.GetDeletionTimestamp() != nil {
+		return false
+	}
+	if g := na.GetDeletionGracePeriodSeconds(); g != nil && (oa.GetDeletionGracePeriodSeconds() == nil || *oa.GetDeletionGracePeriodSeconds() != *g) {
+		return false
+	}
+	if oa.GetDeletionTimestamp() != nil {
+		have := map[string]bool{}
+		for _, f := range oa.GetFinalizers() {
+			have[f] = true
+		}
+		for _, f := range na.GetFinalizers() {
+			if !have[f] {
+				return false
+			}
+		}
+	}
+	return true
 }
 
 func (h *H) modelArgs(st Step, fl regFlags, zeroDeep string, old runtime.Object, oldDeep, subDeep Groups) map[string]interface{} {
